@@ -1,7 +1,7 @@
 //! Content variants: small Zydeco source texts with explicit import structure, so the
 //! simulator knows the ground truth of every file's imports because it wrote them.
 
-use crate::world::{MISSING, SLOT_A, SLOT_E, SLOT_INPUT, SLOTS, Side, in_subdirectory};
+use crate::world::{MISSING, SLOT_A, SLOT_E, SLOT_H, SLOT_INPUT, SLOTS, Side, directory_of, in_subdirectory};
 use zysim_common::{Rng, Value, json};
 
 pub const BUILTIN: &str = "/repo/lib/std/builtin.zy";
@@ -141,21 +141,26 @@ fn spell(side: &Side, holder: usize, import: &ImportRef) -> String {
         return "1".to_string();
     }
     let target = if import.slot == MISSING { "missing.zy" } else { SLOTS[import.slot] };
+    let holder_dir = directory_of(holder);
     let from_sub = in_subdirectory(holder);
-    let relative = if from_sub {
-        match target.strip_prefix("d/") {
+    // the target relative to the holder's directory
+    let relative = if !from_sub {
+        target.to_string()
+    } else {
+        match target.strip_prefix(&format!("{holder_dir}/")) {
             | Some(inside) => inside.to_string(),
             | None => format!("../{target}"),
         }
-    } else {
-        target.to_string()
     };
-    let path = match import.spelling {
+    // `g/` may not exist while `g/h.zy` is overlay-only: any `..` through it would not
+    // resolve, so a holder in `g/` spells every import absolutely
+    let spelling = if holder == SLOT_H { Spelling::Absolute } else { import.spelling.clone() };
+    let path = match spelling {
         | Spelling::Plain | Spelling::Numbered => relative,
         | Spelling::Dot => format!("./{relative}"),
         | Spelling::DotDot => {
             if from_sub {
-                format!("../d/{relative}")
+                format!("../{holder_dir}/{relative}")
             } else {
                 format!("d/../{relative}")
             }
